@@ -96,7 +96,7 @@ def main(argv=None):
         print("BROKEN-CHECK property=%s: %s" % (prop, e))
         return 2
     except Exception:
-        traceback.print_exc()
+        traceback.print_exc(limit=-6)
         print("BROKEN-CHECK property=%s: internal error" % prop)
         return 2
 
